@@ -6,6 +6,7 @@
      TXT   = OLP(code points)              a Python str or None
      OUT   = 0 code n (key min max)*n      an ApiVersions answer      | 1  KafkaUnavailableError | 2  other failure
      EV    = 0 id key                      get_api_version(key) call  | 1 id OUT   the request of call id completes
+             | 2                           reset_all_metadata()
 
    encoder ops (trace: 0 LP(bytes) | ERR, as Model.CodecRun.out_bytes):
       1 HDR key version                                         encode_api_versions_request
@@ -123,6 +124,7 @@ Definition parse_event (l : list Z) : option ((event * Z) * list Z) :=
                          | Some (o, r') => Some ((Reply (Z.to_nat id) o, 0), r')
                          | None => None
                          end
+  | 2 :: r => Some ((Reset, 0), r)
   | _ => None
   end.
 
@@ -206,6 +208,7 @@ Definition run_event (s : cstate) (keys : list (nat * Z)) (ek : event * Z) : cst
           end
         else [] in
       (s', keys, out_cell (cell s') ++ result)
+  | Reset => (s', keys, out_cell (cell s'))
   end.
 
 Fixpoint run_events_obs (s : cstate) (keys : list (nat * Z)) (evs : list (event * Z)) : list Z :=
